@@ -23,9 +23,11 @@ LEVEL = "exploration"
 REQUIRED_CLASSES = ["ok", "refused-outside-envelope"]
 RULE = ("geometry product: sizes {1,2,3,5,9,17}^3 with <= 700 voxels + thin "
         "(33,2,1),(1,5,33),(40,3,1) x resolution triples from {1,1.5,2,3,4,"
-        "8,16} with minimum 1 x target chunk {2,4,8} (quick: a fixed 1/12 "
-        "slice, thorough: 1/2 slice... all triples appear) run with {stride, "
-        "average/edge} on uint8; method product: {stride, majority, "
+        "8,16} with minimum 1 x target chunk {2,4,8}; a fixed arithmetic slice "
+        "of that 75 819-element product is run (every 12th element in "
+        "quick, every 2nd in thorough, offset by the size index so that "
+        "every size, every resolution triple and every target occurs) with "
+        "{stride, average/edge} on uint8; method product: {stride, majority, "
         "average/edge, average/outside 0, average/outside 255} x dtype5 x "
         "channels {1,2} x storage {deep gzip, flat, compressed_segmentation "
         "(uint32/64), sharded(1,1,0)} on 12 geometries covering every "
